@@ -135,33 +135,3 @@ def _six_octet_cases(tier, T):
 @standin("C08", cases=_six_octet_cases, family=lambda: [dict(T=c) for c in float_classes() if c.payload_type is DPTArray and c.payload_length > 4], kind="enum-native", exhaustive=False, bound="DPT 242/243/249.600 (round(x, 5) / round(x, 1) have no encoding): every value of each 16 bit field with the other fields from a sample set and all validity-flag patterns + seeded random payloads")
 def six_octet_roundtrip(T, octets):
     _roundtrip(T, octets)
-
-
-# ----------------------------------------------------------------------------- float codecs: deductive (thorough tier)
-
-from pyvc.api import assume  # noqa: E402
-
-
-def _fp_family():
-    out = []
-    for c in _small_float_classes():
-        if c.payload_length == 2:
-            out.extend(dict(T=c, hi=h) for h in range(16))
-        else:
-            out.append(dict(T=c, hi=-1))
-    return out
-
-
-@lemma("C08", params=dict(payload=Obj(DPTArray, value=ByteTuple())), family=_fp_family, tier="thorough")
-def small_float_roundtrip_fp64(T, hi, payload):
-    """The same statement for the float-computing 1 and 2 octet types, proved in exact IEEE-754 double
-    arithmetic (z3 Float64), the 2 octet domain split by the top payload nibble into 16 queries."""
-    if hi >= 0:
-        assume(len(payload.value) == 2)
-        assume(payload.value[0] >> 4 == hi)
-    try:
-        v = T.from_knx(payload)
-    except (CouldNotParseTelegram, ConversionError):
-        return
-    q = T.to_knx(v)
-    assert same_value(T.from_knx(q), v)
